@@ -415,6 +415,10 @@ func runC10(r *Run) {
 		}
 	})
 
+	r.rule("R9", "the host name is the Host header without its port: where the root package cuts a host at a ':' it does so through net.SplitHostPort or in a function that looks at the bracket of an IPv6 literal — `Host: [2001:db8::1]` carries colons and no port (E1, belief rule shared with C18-R12)", func() {
+		hostColonCutRule(r, "", 1, "so Hostname() answers `[2001:db8:` for `Host: [2001:db8::1]`, a value that is neither the host nor derived from the connection")
+	})
+
 	r.rule("R8", "the scheme of a connection that fiber terminates with TLS is https whoever the peer is: Scheme answers anything but the constant https only behind `IsTLS() == false` (E1)", func() {
 		f := r.Fn("", "(*DefaultCtx).Scheme")
 		cut := map[edge]bool{}
